@@ -255,9 +255,10 @@ def InfoLine.syn (endRe : Re) (l : InfoLine) (pieces : List Text) : Bool :=
 def infoTextOf (ls : List InfoLine) : Text := join ['\n'] (ls.map (·.text))
 
 /-- what is planted in the text: the licence values, the notices, the contributor values — each as a set in order
-    of first occurrence -/
+    of first occurrence.  A licence line whose value is empty plants nothing (a tag without a value declares nothing;
+    possible only for a framed line whose frame is set off by white space other than blanks) -/
 def plantedInfo (ls : List InfoLine) : Extracted :=
-  { lic := dedup (ls.filterMap (·.licValue))
+  { lic := (dedup (ls.filterMap (·.licValue))).filter (fun v => !v.isEmpty)
     cpr := dedup (ls.filterMap (·.notice))
     con := dedup (ls.filterMap (·.conValue)) }
 
